@@ -46,5 +46,39 @@ def run(chk, ctx):
                 raise RuntimeError(v)
             chk.violation("the report header does not name the unused / overridden options", dict(blt=b, options=o, failure=v),
                           signature=dict(kind='c17-report-header', rule=o['rule']))
+    # the file layer is the options of EVERY [droop ...] group of the ballot file, in file order: the same options written as
+    # one group and spread over several groups give the same count (parametric rules, where the options matter)
+    SETS = [['arithmetic=fixed', 'precision=3'], ['arithmetic=fixed', 'precision=5', 'display=2'], ['arithmetic=guarded', 'precision=4', 'guard=2'],
+            ['arithmetic=rational', 'display=4'], ['arithmetic=integer'], ['precision=6', 'guard=3'], ['arithmetic=guarded', 'precision=2', 'guard=0', 'display=2'],
+            ['arithmetic=fixed', 'precision=2', 'precision=4']]
+    groups = []
+    for i in range(60 if quick else 6000):
+        rule = rng.choice(['wigm', 'meek', 'warren'])
+        blt = cd.render_blt(cd.gen_election(rng))
+        fo = list(rng.choice(SETS))
+        if rule == 'wigm':
+            if rng.random() < 0.4: fo.append('defeat_batch=zero')
+            if rng.random() < 0.3: fo.append('integer_quota=true')
+        else:
+            if rng.random() < 0.4: fo.append('omega=%d' % rng.choice([1, 2, 4]))
+            if rng.random() < 0.3: fo.append('defeat_batch=none')
+        if len(fo) < 2: fo.append('display=0')
+        head, rest = blt.split('\n', 1)
+        one = head + '\n[droop %s]\n' % ' '.join(fo) + rest
+        cuts = sorted(set(rng.randint(1, len(fo) - 1) for _ in range(rng.randint(1, 2))))
+        parts = [fo[a:b] for a, b in zip([0] + cuts, cuts + [len(fo)])]
+        many = head + '\n' + ''.join('[droop %s]\n' % ' '.join(g) for g in parts) + rest
+        groups.append((rule, one, many))
+    gres = cd.run_cases([(one, dict(rule=r)) for r, one, many in groups] + [(many, dict(rule=r)) for r, one, many in groups], timeout=15, use_model=False)
+    for k, (r, one, many) in enumerate(groups):
+        x, y = gres[k], gres[k + len(groups)]
+        if 'timeout' in (x['status'], y['status']): continue
+        chk.count(); chk.nontrivial(('droop-groups', r, x['status'].split(':')[0], x.get('arith')))
+        if x['status'] != y['status'] or x['trace'] != y['trace'] or x.get('arith') != y.get('arith'):
+            chk.violation("options spread over several [droop ...] groups of the ballot file are not the file layer one group gives",
+                          dict(blt=many, blt_one_group=one, options=dict(rule=r), one_group_status=x['status'], status=y['status'],
+                               arithmetic=(x.get('arith'), y.get('arith')), first_difference=cd.first_diff(x['trace'], y['trace'])),
+                          signature=dict(kind='c17-droop-groups', rule=r))
+    chk.cov['droop_group_pairs'] = len(groups)
     chk.cov['immunity_pairs'] = len(cases)
     chk.cov['report_headers'] = dict(nhead)
